@@ -237,7 +237,13 @@ def canon_s(s, n):
 _SK = {}
 
 
+def other_hash(h):
+    return HASHES[(HASHES.index(h) + 2) % 5]
+
+
 def signing_key(cname, x, h):
+    """SigningKey whose *default* hash is h (the checks pass hashfunc= explicitly and give the key a different default,
+    except in the default-hash sub-check)."""
     key = (cname, x, h)
     sk = _SK.get(key)
     if sk is None:
@@ -268,9 +274,11 @@ def lib_sign(what, f, *a, **kw):
 
 
 def lib_verify(vk, sig, msg, h, enc, digest=None, allow_truncate=True):
-    """-> 'ok' | 'bad' (BadSignatureError) | 'false' (falsy return) | ('exc', exception)"""
+    """-> 'ok' | 'bad' (BadSignatureError) | 'false' (falsy return) | ('exc', exception).  h=None: the key's default hash."""
     try:
-        if digest is None:
+        if digest is None and h is None:
+            res = vk.verify(sig, msg, sigdecode=sigdecode(enc))
+        elif digest is None:
             res = vk.verify(sig, msg, hashfunc=hfun(h), sigdecode=sigdecode(enc))
         else:
             res = vk.verify_digest(sig, digest, sigdecode=sigdecode(enc), allow_truncate=allow_truncate)
@@ -388,7 +396,7 @@ def check_cell(case, rec):
     g = G(cname)
     k = case["k"] % n or 1
     digest = hashlib.new(h, msg).digest()
-    sk = signing_key(cname, x, h)
+    sk = signing_key(cname, x, other_hash(h))
     vk = sk.verifying_key
     try:
         pt = vk.pubkey.point
@@ -435,6 +443,15 @@ def check_cell(case, rec):
     if canon and canon_s(want_s, n) != want_s:
         rec.cls("canon.changed-s")
     sigs = [det[0]]
+    # the same through the key's default hash function (no hashfunc= argument)
+    skd = signing_key(cname, x, h)
+    sigd = lib_sign("sign_deterministic (default hash)", skd.sign_deterministic, msg, sigencode=se, **kw)
+    if sigd != det[0][1]:
+        raise Violation("sign_deterministic with default hash %s differs from sign_deterministic(hashfunc=%s): %s vs %s [%s]" % (
+            h, h, show(sigd), show(det[0][1]), ctx(case)))
+    v = lib_verify(skd.verifying_key, sigd, msg, None, enc)
+    if v != "ok":
+        raise Violation("verify with the key's default hash %s: %r [%s]" % (h, v, ctx(case)))
 
     # (a) library signatures (randomised API with a given nonce / entropy source) --------------------------
     sigs.append(("sign(k=%#x)" % k, lib_sign("sign(k=)", sk.sign, msg, hashfunc=hfun(h), sigencode=se, k=k)))
@@ -501,7 +518,7 @@ def check_cell(case, rec):
         if x2 == x:
             continue
         rec.cls(name)
-        vk2 = foreign_vk(cname, x2, h)
+        vk2 = signing_key(cname, x2, h).verifying_key if name == "otherkey=random" else foreign_vk(cname, x2, h)
         must_reject("%s (public key of %#x)" % (name, x2), vk2, sig0, case, strict=False)
 
     # (d) sampled single-bit flips (the full sweep is the tamper part) -------------------------------------------
@@ -585,7 +602,7 @@ def strat_cell(tier):
 def check_tamper(case, rec):
     cname, h, enc, canon, x, msg = case["curve"], case["hash"], case["enc"], case["canon"], case["x"], case["msg"]
     n = common_classes(case, rec)
-    sk = signing_key(cname, x, h)
+    sk = signing_key(cname, x, other_hash(h))
     vk = sk.verifying_key
     se = sigencode(enc, canon)
     if case.get("k"):
@@ -669,7 +686,7 @@ def check_range(case, rec):
     cname, h, enc, x, msg = case["curve"], case["hash"], case["enc"], case["x"], case["msg"]
     n = common_classes(case, rec)
     l = olen(n)
-    sk = signing_key(cname, x, h)
+    sk = signing_key(cname, x, other_hash(h))
     vk = sk.verifying_key
     sig = lib_sign("sign_deterministic", sk.sign_deterministic, msg, hashfunc=hfun(h), sigencode=sigencode(enc, False))
     r, s = dec_sig(enc, sig, n)
